@@ -293,7 +293,10 @@ class OPAdapter(RoutingAdapter):
 
     # ---------------------------------------------------------------- hand-built solutions (C06)
     def extra_c06(self, ctx, tier, items):
-        out = super().extra_c06(ctx, tier, items) or {}
+        # the generic single-fault corruptions (vt/envs/_base.py), on a sample of the episodes in the thorough tier (budget)
+        done = [it for it in items if it.ep.complete]
+        sub = items if tier == "quick" or len(done) <= 150 else ctx.rng.sample(done, 150)
+        out = super().extra_c06(ctx, tier, sub) or {}
         rng = ctx.rng
         triples = []
         seen = set()
@@ -306,7 +309,7 @@ class OPAdapter(RoutingAdapter):
             tours = []
             if "target" in it.meta:
                 tours.append(list(it.meta["target"]))
-            for _ in range(2 if tier == "quick" else 8):
+            for _ in range(2 if tier == "quick" else 4):
                 k = rng.randint(1, min(n, 5))
                 tours.append(rng.sample(range(1, n + 1), k))
             for cs in tours:
@@ -316,7 +319,7 @@ class OPAdapter(RoutingAdapter):
                 if len(cs) >= 2:
                     m = len(cs) // 2
                     triples.append((it, "via-depot", cs[:m] + [0] + cs[m:] + [0]))
-            if len(triples) > (180 if tier == "quick" else 2500):
+            if len(triples) > (180 if tier == "quick" else 900):
                 break
         out.update(_handsol.check_solutions(self, ctx, tier, triples, "handbuilt"))
         return out
